@@ -24,11 +24,20 @@ from .c12 import lin, offset_from, _native_failed
 INVAL = 28
 BADF = 8
 
-PATH_IMPORTS = {   # import -> (native function(s), position(s) of the native path argument(s))
-    'path_open': ('open', [0]), 'path_filestat_get': ('stat', [0]), 'path_rename': ('rename', [0, 1]),
-    'path_unlink_file': ('unlink', [0]), 'path_remove_directory': ('rmdir', [0]),
-    'path_create_directory': ('mkdir', [0]), 'path_symlink': ('symlink', [1]), 'path_readlink': ('readlink', [0]),
+PATH_IMPORTS = {   # import -> (native function, positions of its path arguments, witx (fd, path, path_len) parameter triples)
+    'path_open': ('open', [0], [(0, 2, 3)]), 'path_filestat_get': ('stat', [0], [(0, 2, 3)]),
+    'path_rename': ('rename', [0, 1], [(0, 1, 2), (3, 4, 5)]),
+    'path_unlink_file': ('unlink', [0], [(0, 1, 2)]), 'path_remove_directory': ('rmdir', [0], [(0, 1, 2)]),
+    'path_create_directory': ('mkdir', [0], [(0, 1, 2)]), 'path_symlink': ('symlink', [1], [(2, 3, 4)]),
+    'path_readlink': ('readlink', [0], [(0, 1, 2)]),
 }
+DIR_SLOTS = [(3, '/preopen'), (4, '/other')]
+
+
+def two_dir_table():
+    t = std_table(0)
+    t.append(W.descriptor(-1, 0, '/other'))
+    return t
 
 
 def path_leafs(state):
@@ -77,22 +86,26 @@ def origin(v):
 
 def check_path_imports(chk, tu):
     eps = W.entry_points(tu)
-    for imp, (native, ppos) in sorted(PATH_IMPORTS.items()):
+    for imp, (native, ppos, triples) in sorted(PATH_IMPORTS.items()):
         for gen, f in sorted(eps[imp].items()):
             params = astdb.fn_params(f)[1:]
             state = {}
 
+            fd_value = {}
+            for k, (fi, pi, li) in enumerate(triples):
+                fd_value[fi] = DIR_SLOTS[k][0]
+
             def mk(it, st):
                 args = [unk('instance')]
-                for p in params:
+                for i, p in enumerate(params):
                     nm = p.get('name', '')
                     t = tu.desugar(astdb.qtype(p))
-                    if nm.lower().endswith('fd') or nm in ('dirFD', 'wasiDirFD', 'oldDirFD', 'newDirFD', 'wasiFD'):
-                        args.append(3)
+                    if i in fd_value:
+                        args.append(fd_value[i])
                     elif 'lags' in nm or 'ights' in nm:
                         args.append(0)
                     else:
-                        args.append(unk(nm, t))
+                        args.append(unk('p%d' % i, t))
                 return args
             captured = []
 
@@ -108,7 +121,7 @@ def check_path_imports(chk, tu):
             def setup():
                 st2.clear()
                 state.clear()
-                W.seed_globals(it, tu, st2, std_table(0), errno_value=5)
+                W.seed_globals(it, tu, st2, two_dir_table(), errno_value=5)
                 return (f['name'], mk(it, st2), {})
             paths = it.explore(setup)
             inst = '%s/%s' % (gen, imp)
@@ -123,16 +136,27 @@ def check_path_imports(chk, tu):
                                '%s performs %s() / returns %r after path resolution failed' % (imp, native, p.ret), site + ':resolve-failure')
                 for nm, a, l in calls:
                     n_native += 1
+                want_res = []
+                for k, (fi, pi, li) in enumerate(triples):
+                    want_res.append((DIR_SLOTS[k][1], unk('p%d' % pi), unk('p%d' % li)))
+                got_res = []
                 for a in res_ev:
-                    chk.expect(a[0] == '/preopen', 'R14.1', inst + ':resolves-against-descriptor-path',
-                               '%s resolves against %r, expected the stored path of the directory descriptor' % (imp, a[0]), site + ':directory')
+                    gp = a[1]
+                    from .c14 import _strip_data as _sd
+                    g0 = pe.strip_casts(_sd(pe.strip_casts(gp))) if is_sym(gp) else gp
+                    got_res.append((a[0], g0, pe.strip_casts(a[2]) if is_sym(a[2]) else a[2]))
+                okr = all(g in want_res for g in got_res) and (len(got_res) <= len(want_res))
+                chk.expect(okr, 'R14.1', inst + ':resolves-against-descriptor-path',
+                           '%s resolves %r; each guest path must be resolved against the stored path of ITS OWN directory descriptor with its own '
+                           'pointer and length: expected %r' % (imp, [(g[0], repr(g[1]), repr(g[2])) for g in got_res],
+                                                                [(w[0], repr(w[1]), repr(w[2])) for w in want_res]), site + ':directory')
                 if _native_failed(p, (native,)):
                     chk.expect(p.ret not in (0,), 'R14.6', inst + ':failure-reported', '%s reports SUCCESS after %s() failed' % (imp, native),
                                site + ':error-discipline')
             chk.expect(n_native >= 1, 'R14.1', inst + ':performs-operation',
                        '%s never calls %s()' % (imp, native), site + ':operation')
             for origins in captured:
-                for k in ppos:
+                for j, k in enumerate(ppos):
                     if k >= len(origins):
                         continue
                     kind, detail = origins[k]
@@ -140,6 +164,15 @@ def check_path_imports(chk, tu):
                                '%s passes %s as path argument %d of %s(): the guest path reaches the host call without going through '
                                'resolvePath (not anchored at the directory descriptor, not length-checked, not NUL-terminated)'
                                % (imp, kind, k, native), site + ':unresolved-path')
+                    if kind == 'resolved' and j < len(triples):
+                        fi, pi, li = triples[j]
+                        gp = detail[2]
+                        g0 = pe.strip_casts(_strip_data(pe.strip_casts(gp))) if is_sym(gp) else gp
+                        okd = detail[1] == DIR_SLOTS[j][1] and g0 == unk('p%d' % pi)
+                        chk.expect(okd, 'R14.1', inst + ':native-path-%d-is-its-own' % k,
+                                   '%s: argument %d of %s() is the resolution of %r against %r; the specification pairs it with guest path '
+                                   'parameter %d and directory %r (old/new swapped or resolved against the wrong descriptor)'
+                                   % (imp, k, native, g0, detail[1], pi, DIR_SLOTS[j][1]), site + ':path-pairing')
                 if imp == 'path_symlink' and origins:
                     kind, detail = origins[0]
                     chk.expect(kind == 'bounded-copy', 'R14.1', inst + ':link-target-bounded',
